@@ -71,4 +71,14 @@ PROPS = {
                  'the budgets and the 16384-byte first fetch are regenerated from convert.go/extract.go/server.go.',
   'allowed_axioms': [],
  },
+ 'C13': {
+  'rule': 'valid unclustered archives written by the harness (1..20 entries, run lengths, shared offsets, a pool of few distinct contents so that equal contents sit at '
+          'different offsets, scrambled data order, runs crossing a zoom boundary, all tile types/compressions, zero and non-zero centers, bounds whose sum overflows int32, '
+          'root-only to two leaf levels, gzip/none) through the real Cluster with dedup on/off; output read back by the independent reader. Non-trivial: > 2 entries; distinct by case line',
+  'trusted_base': [GZIP, 'fnv128a modelled as an injective hash (the executable instance uses the content itself); the theorems carry the no-collision hypothesis',
+                   'encoding/json: metadata compared as canonical JSON'],
+  'assumptions': ['input archives are well formed (awf): ascending disjoint runs, every entry non-empty and inside the tile data'],
+  'explanation': 'C13_tile_map_preserved and C13_verifies hold for every well-formed archive, dedup on and off; the cluster model is compared field-for-field, entry-for-entry and byte-for-byte '
+                 '(tile data) with the real Cluster, and the oracle re-checks content map, declarations, metadata, structure and pmtiles.Verify on the output.',
+ },
 }
